@@ -74,6 +74,7 @@ func (vc *VC) execInstr(in ssa.Instruction, pc string, st *State) {
 	case *ssa.Store:
 		addr := vc.val(x.Addr)
 		elemT := x.Addr.Type().Underlying().(*types.Pointer).Elem()
+		vc.curState = st
 		vc.checkGlobalStore(x, pc)
 		vc.storeThrough(st, x.Addr, addr, elemT, vc.val(x.Val))
 	case *ssa.TypeAssert:
@@ -237,6 +238,10 @@ func (vc *VC) execUnOp(x *ssa.UnOp, pc string, st *State) {
 		}
 		p := vc.val(x.X)
 		elemT := x.X.Type().Underlying().(*types.Pointer).Elem()
+		if g := vc.guardOf(x.X); g != nil {
+			vc.obligeGuard(g, pc, st, x.Pos(), "read of "+g.Var+"."+g.Field)
+			vc.guarded[x] = g
+		}
 		// loads through pointers produced by FieldAddr/IndexAddr/Alloc/Global are known non-nil; others need a check
 		switch x.X.(type) {
 		case *ssa.FieldAddr, *ssa.IndexAddr, *ssa.Alloc, *ssa.Global:
@@ -534,10 +539,48 @@ func (vc *VC) checkGlobalStore(x *ssa.Store, pc string) {
 		break
 	}
 	if g, ok := root.(*ssa.Global); ok {
+		if gd := vc.guardOf(x.Addr); gd != nil {
+			vc.obligeGuard(gd, pc, vc.curState, x.Pos(), "write of "+gd.Var+"."+gd.Field)
+			return
+		}
 		if vc.fn.Name() == "init" && vc.fn.Synthetic != "" || isInitFunc(vc.fn) {
 			return
 		}
 		vc.oblige("globalstore", g.Name(), pc, "false", []string{"C16"}, x.Pos(), "store to package-level variable "+g.String()+" outside init")
+	}
+}
+
+// guardOf: the guard directive covering the address (a package-level variable or one of its fields).
+func (vc *VC) guardOf(addr ssa.Value) *Guard {
+	field := ""
+	if fa, ok := addr.(*ssa.FieldAddr); ok {
+		st := fa.X.Type().Underlying().(*types.Pointer).Elem().Underlying().(*types.Struct)
+		field = st.Field(fa.Field).Name()
+		addr = fa.X
+	}
+	g, ok := addr.(*ssa.Global)
+	if !ok || g.Pkg == nil {
+		return nil
+	}
+	for _, gd := range vc.w.cs.Guards {
+		if gd.Pkg == g.Pkg.Pkg.Path() && gd.Var == g.Name() && gd.Field == field {
+			return gd
+		}
+	}
+	return nil
+}
+
+func (vc *VC) obligeGuard(g *Guard, pc string, st *State, pos token.Pos, what string) {
+	if vc.w.cs.GhostByNm[g.Ghost] == nil {
+		specFail("guard: unknown ghost %s", g.Ghost)
+	}
+	vc.oblige("guard", g.Var+"."+g.Field, pc, vc.ghostGet(st, g.Ghost), g.Tags, pos, what+" requires "+g.Ghost+" (lock discipline)")
+}
+
+// guardedUse: map operations on a map loaded from a guarded variable need the guard too.
+func (vc *VC) guardedUse(m ssa.Value, pc string, st *State, pos token.Pos, what string) {
+	if g := vc.guarded[m]; g != nil {
+		vc.obligeGuard(g, pc, st, pos, what+" on "+g.Var+"."+g.Field)
 	}
 }
 
